@@ -281,11 +281,13 @@ class ANSI (term):
     def process (self, c):
         """Process a single character. Called by :meth:`write`."""
         if isinstance(c, bytes):
-            c = self._decode(c)
-            if not c:
-                # Part of a multi-byte character: the decoder keeps it until
-                # the rest arrives.
-                return
+            # A byte may complete no character (part of a multi-byte
+            # character: the decoder keeps it until the rest arrives), one,
+            # or two (a replacement for a broken sequence, then the byte's
+            # own character).
+            for ch in self._decode(c):
+                self.state.process(ch)
+            return
         self.state.process(c)
 
     def process_list (self, l):
